@@ -109,16 +109,28 @@ nng_init(const nng_init_params *params)
 
 	init_count++;
 
-	if (
-		((rv = nni_alloc_set(init_params.malloc_fn, init_params.calloc_fn, init_params.free_fn)) != 0) ||
-		((rv = nni_plat_init(&init_params)) != 0) ||
-	    ((rv = nni_taskq_sys_init(&init_params)) != 0) ||
-	    ((rv = nni_reap_sys_init()) != 0) ||
-	    ((rv = nni_aio_sys_init(&init_params)) != 0) ||
-	    ((rv = nni_tls_sys_init()) != 0)) {
-		nni_atomic_flag_reset(&init_busy);
-		nng_fini();
-		return (rv);
+	// Each step cleans up after itself when it fails; what has to be
+	// undone here is exactly the steps that succeeded before it.  (The
+	// general nng_fini cannot be used for that: it drains and finalizes
+	// subsystems that were never initialized.)
+	if ((rv = nni_alloc_set(init_params.malloc_fn, init_params.calloc_fn,
+	         init_params.free_fn)) != 0) {
+		goto fail;
+	}
+	if ((rv = nni_plat_init(&init_params)) != 0) {
+		goto fail;
+	}
+	if ((rv = nni_taskq_sys_init(&init_params)) != 0) {
+		goto fail_plat;
+	}
+	if ((rv = nni_reap_sys_init()) != 0) {
+		goto fail_taskq;
+	}
+	if ((rv = nni_aio_sys_init(&init_params)) != 0) {
+		goto fail_reap;
+	}
+	if ((rv = nni_tls_sys_init()) != 0) {
+		goto fail_aio;
 	}
 
 	// following never fails
@@ -126,6 +138,19 @@ nng_init(const nng_init_params *params)
 
 	nng_log_notice(
 	    "NNG-INIT", "NNG library version %s initialized", nng_version());
+	nni_atomic_flag_reset(&init_busy);
+	return (rv);
+
+fail_aio:
+	nni_aio_sys_fini();
+fail_reap:
+	nni_reap_sys_fini();
+fail_taskq:
+	nni_taskq_sys_fini();
+fail_plat:
+	nni_plat_fini();
+fail:
+	init_count--;
 	nni_atomic_flag_reset(&init_busy);
 	return (rv);
 }
